@@ -171,6 +171,8 @@ def main():
                     o["set_period"] = [pn2 / 1000.0, big, 0.1]
             elif rng.random() < 0.2:
                 o["period_as_float"] = True          # 2 -> 2.0
+            if rng.random() < 0.5:
+                o["period_first"] = True             # set_sampling_period() before spec.unit = ... (seed r9 C08-2)
             objs.append(o)
         h = horizon(phi)
         N = rng.choice([2, 3, 5, 8]) + (h if kind == "past" else 0)
